@@ -11,7 +11,7 @@ PROPS = ['Props/C03']
 PROP = 'C03'
 RULE = _c01.RULE + '; for C03 the stored list of every recorded bundle is also replayed by the model after the model-level undo'
 TRUSTED = _c01.TRUSTED
-ASSUMPTIONS = ['ValLaws (see C01)',
+ASSUMPTIONS = ['ValLaws: proved for the encoded-value model of the tie (see C01; C03_redo_encoded_values_partial)',
                'proved class (C03_redo_docs_calcs_partial): doc actions, then calc deltas, then the flush, under the computable '
                'side conditions bundle_ok2 (see C01); the stored list is then the doc actions followed by one update per '
                'recalculated column',
